@@ -196,8 +196,9 @@ def lift(ring, m, x):
     return r
 
 
-CONV_FORMS = ["I", "i64", "u64", "d", "i32", "u32"]
-CONV_RANGE = {"I": None, "i64": SRC_RANGE["i64"], "u64": SRC_RANGE["u64"], "d": (-2**53, 2**53), "i32": SRC_RANGE["i32"], "u32": SRC_RANGE["u32"]}
+CONV_FORMS = ["I", "i64", "u64", "d", "i32", "u32", "f", "i16", "u16"]
+CONV_RANGE = {"I": None, "i64": SRC_RANGE["i64"], "u64": SRC_RANGE["u64"], "d": (-2**53, 2**53), "i32": SRC_RANGE["i32"], "u32": SRC_RANGE["u32"],
+              "f": (-2**24, 2**24), "i16": SRC_RANGE["i16"], "u16": SRC_RANGE["u16"]}
 RT_FORMS = ["I", "i64", "u64", "d"]
 
 
